@@ -275,6 +275,9 @@ def make_sims(rng, n):
                 ops.append(["set", rng.choice([-1, 0, k // 2])])
         # every run restores a saved iteration at least once, saves right after it, and goes on
         ops += [["set", 0 if i % 2 else -1], ["save"], ["solve", float("%.6g" % (0.8 * lvl))], ["save"]]
+        if i % 2 == 0:
+            # the mesh is replaced: fresh history, then one small (elastic) and one larger step
+            ops += [["remesh"], ["solve", float("%.6g" % (0.4 * u1))], ["save"], ["solve", float("%.6g" % (1.6 * u1))], ["save"]]
         cfg["ops"] = ops
         cfg["elem"] = rng.choice(["QUAD4", "TRI3"])
         cfg["id"] = "sim%02d-%s-%s" % (i, mode, "/".join([yk, hk, kk, rk]))
@@ -347,5 +350,27 @@ def make_batches(rng, n):
         f1 = [field[e * nPg:(e + 1) * nPg] for e in range(Ne)]
         f2 = [[[x * rng.choice([1.4, 0.6, -0.5]) for x in pt] for pt in el] for el in f1]
         cfg.update(id="bat%02d-%s-%s-%dx%d" % (i, "/".join(str(x) for x in combo), kind, Ne, nPg), combo=list(combo), fields=[f1, f2], field_kind=kind)
+        out.append(cfg)
+    return out
+
+
+def make_memo_cases(rng, n):
+    """The elastic parameters are changed BETWEEN two Integrate calls of the same Behavior: the
+    result must be that of a Behavior built afresh with the new parameters (the spectral
+    decomposition is a memo keyed by C), and changing them back must give the first result again."""
+    out = []
+    for i in range(n):
+        yk = ["VonMises", "Hill"][i % 2]
+        hk = ["Linear", "Voce", "none", "Swift"][i % 4]
+        rk = "none" if i % 3 else "Norton1"
+        mode = MODES[i % 3]
+        cfg = gen_config(rng, (yk, hk, "none", rk, 0, mode, "iso"))
+        nn = 6 if mode == "3D" else 3
+        cfg["solver"] = "auto" if i % 4 != 3 else "newton"
+        cfg["elastic2"] = {"kind": "iso", "E": float("%.4g" % (cfg["elastic"]["E"] * rng.choice([0.5, 0.8, 1.7]))), "v": float("%.2f" % min(0.45, max(0.02, cfg["elastic"]["v"] + rng.choice([-0.1, 0.07]))))}
+        d = unit_dir(rng, nn)
+        cfg["eps"] = [[cfg["eps_y"] * a * x for x in d] for a in (0.4, 2.5, 5.0)]
+        cfg["id"] = "memo%02d-%s-%s-%s-%s-%s" % (i, yk, hk, rk, mode, cfg["solver"])
+        cfg["combo"] = [yk, hk, "none", rk, 0, mode, "iso"]
         out.append(cfg)
     return out
